@@ -467,7 +467,10 @@ def _conds(idx, node, stop):
 
 
 def rules(ctx):
-    out = [r11_1, r11_2, r11_3, r11_4]
+    from ..engine import only
+    from . import c01
+    out = [r11_1, r11_2, r11_3, r11_4,
+           only(c01.r01_1, lambda k: k.startswith(("component predicate", "the Fragment name")), "which hosts are components: only their children are deferred into slot functions")]
     if ctx.tier == "thorough":
         from . import controls
         out.append(controls.callee_pattern_control("R11.3", ORDER_BREAKERS, ["reversed", "reversed_in_place"]))
